@@ -36,6 +36,8 @@ theorem const_interval : Gen.idleCleanupIntervalNs = 1000000000 := by decide
   (`feedA`), and on a failed dial unlocks BEFORE calling CloseWithErr (`rlCloseA` is a separate step).
   A test dropped from a lock region, a call moved across an unlock, a changed sweep condition or a
   different id in the upstream message changes these strings and the obligation fails here.
+  `def(x:=make)` records that a slice is a fresh local allocation (cleanup's snapshot runs on two goroutines
+  under the READ lock only: it must not be a view of anything shared); `set(m.…)` is any write of a manager field.
   The override/original-address bookkeeping and the decision cache are C08's part of these functions and
   are left out of these strings (they are obligations of Hy.Props.C08). -/
 
@@ -46,13 +48,13 @@ theorem skeleton_FeedHead : Gen.udpSkel_FeedHead =
 theorem skeleton_initConn : Gen.udpSkel_initConn =
     "e.connLock.Lock if(e.closed){ e.connLock.Unlock ret } e.DialFunc if(err!=nil){ e.connLock.Unlock e.CloseWithErr ret } set(e.conn) go(e.receiveLoop) e.connLock.Unlock ret" := rfl
 theorem skeleton_receiveLoop : Gen.udpSkel_receiveLoop =
-    "for{ e.conn.ReadFrom if(err!=nil){ e.CloseWithErr ret } e.Last.Set msg{SessionID:e.ID} sendMessageAutoFrag if(err!=nil){ e.CloseWithErr ret } }" := rfl
+    "def(udpBuf:=make) def(msgBuf:=make) for{ e.conn.ReadFrom if(err!=nil){ e.CloseWithErr ret } e.Last.Set msg{SessionID:e.ID} sendMessageAutoFrag if(err!=nil){ e.CloseWithErr ret } }" := rfl
 theorem skeleton_Run : Gen.udpSkel_Run =
-    "go(m.idleCleanupLoop) defer(close) defer(m.cleanup) for{ m.io.ReceiveMessage if(err!=nil){ ret } m.feed }" := rfl
+    "def(stopCh:=make) go(m.idleCleanupLoop) defer(close) defer(m.cleanup) for{ m.io.ReceiveMessage if(err!=nil){ ret } m.feed }" := rfl
 theorem skeleton_idleCleanupLoop : Gen.udpSkel_idleCleanupLoop =
     "time.NewTicker defer(ticker.Stop) for{ select{ case(<-ticker.C): m.cleanup case(<-stopCh): ret } }" := rfl
 theorem skeleton_cleanup : Gen.udpSkel_cleanup =
-    "m.mutex.RLock range(m.m){ if(!idleOnly||now.Sub(entry.Last.Get())>m.idleTimeout){ } } m.mutex.RUnlock range(timeoutEntry){ entry.CloseWithErr }" := rfl
+    "m.mutex.RLock def(timeoutEntry:=make) range(m.m){ if(!idleOnly||now.Sub(entry.Last.Get())>m.idleTimeout){ } } m.mutex.RUnlock range(timeoutEntry){ entry.CloseWithErr }" := rfl
 theorem skeleton_feed : Gen.udpSkel_feed =
     "m.mutex.RLock m.mutex.RUnlock if(entry==nil){ func{ m.io.Hook if(err!=nil){ ret } m.eventLogger.New m.io.UDP ret } func{ m.eventLogger.Close m.mutex.Lock delete(m.m,entry.ID) m.mutex.Unlock } newUDPSessionEntry m.mutex.Lock set(m.m[msg.SessionID]) m.mutex.Unlock } entry.Feed" := rfl
 theorem skeleton_Count : Gen.udpSkel_Count =
